@@ -19,7 +19,7 @@ def arm_defs(fn, local, slicer):
     return rows
 
 
-def phi_local_of(fn, operand):
+def phi_local_of(fn, operand, through_proj=False):
     """local behind a Copy/Move operand, following plain moves/copies/refs back to a local with
     more than one whole definition (the `match` result); returns that local or None"""
     pl = op_place(operand)
@@ -34,6 +34,8 @@ def phi_local_of(fn, operand):
             nxt = op_place(rv['o']) if rv['r'] == 'use' else rv['p']
             if nxt is None:
                 return None
+            if not through_proj and [x for x in nxt[1:] if x != '*']:
+                return None     # a projection of another value, not the value itself
             pl = nxt
             continue
         if len(defs) == 1 and defs[0][0] == 'call':
